@@ -173,8 +173,15 @@ class StmtMixin:
             if not hasattr(n, "lineno"):
                 n.lineno = node.lineno
         cur = self.ev(load, st)
-        saved = self.check_index
-        v = self.binop(node.op, cur, self.ev(node.value, st), st, False, node)
+        rhs = self.ev(node.value, st)
+        if is_sv(cur) and cur.ty.kind == "ref" and isinstance(node.op, ast.Add):
+            con = self.reg.method_contract(cur.ty.arg, "__iadd__")
+            if con is None:
+                raise Unsupported("+= on %r without an __iadd__ contract" % (cur.ty,))
+            v = self.apply_contract(con, [cur, rhs], {}, st, "%s.__iadd__" % cur.ty.arg)
+            self.assign(node.target, v, st)
+            return
+        v = self.binop(node.op, cur, rhs, st, False, node)
         self.assign(node.target, v, st)
 
     def st_Delete(self, node, st):
@@ -191,7 +198,8 @@ class StmtMixin:
 
     def assign(self, target, v, st):
         if isinstance(target, ast.Name):
-            if isinstance(v, PyVal) and v.kind not in ("range", "lambda", "const", "emptydict", "zip", "enumerate", "ns"):
+            if isinstance(v, PyVal) and v.kind not in ("range", "lambda", "const", "emptydict", "zip", "enumerate", "ns", "boundmethod",
+                                                       "func", "class"):
                 raise Unsupported("assignment of %r" % v)
             if is_sv(v):
                 decl = self.contract.locals.get(target.id)
